@@ -88,8 +88,9 @@ def get_smpl_chunk_data(sample: Sample) -> WavSampleChunkContainer:
         pitch_cents
     )
     midi_note = sample.midi_note or MidiNote.from_string("C4")
+    # the smpl chunk holds a MIDI note number: keep it inside 0..127
     adj_note_pitch = MidiNote.from_midi_byte(
-        midi_note.to_midi_byte() + note_pitch_offset
+        min(max(midi_note.to_midi_byte() + note_pitch_offset, 0), 127)
     )
     smpl_header = WavSampleChunkContainer(
         manufacturer=0,
